@@ -181,6 +181,8 @@ func (c18Driver) Info() core.Info {
 func (c18Driver) Generate(t *tape.Tape, tier string) core.Case {
 	c := &c18Case{}
 	p := profGeneral(t.Sub("profile"))
+	// one set in eight holds no typedef at all
+	p.NoTypedefs = t.Sub("no-typedefs").Chance(1, 8)
 	if t.Chance(2, 3) {
 		p.MaxInvalid = 0
 	}
